@@ -12,11 +12,19 @@ import (
 	"strings"
 	"sync"
 	"testing"
+	"time"
 
+	"github.com/go-i2p/common/certificate"
 	"github.com/go-i2p/common/data"
+	"github.com/go-i2p/common/destination"
+	"github.com/go-i2p/common/encrypted_leaseset"
 	"github.com/go-i2p/common/key_certificate"
+	"github.com/go-i2p/common/keys_and_cert"
+	"github.com/go-i2p/common/lease_set2"
 	"github.com/go-i2p/common/offline_signature"
+	"github.com/go-i2p/common/router_identity"
 	"github.com/go-i2p/common/signature"
+	"github.com/go-i2p/crypto/kdf"
 
 	"i2psim.local/sim/adapters"
 	"i2psim.local/sim/engine"
@@ -95,7 +103,7 @@ func (World) Generate(r *engine.RNG, tier string) *engine.Script {
 		for c, n := 0, r.Range(1, 4); c < n; c++ {
 			sel := int64(r.Intn(1 << 16))
 			if r.Chance(1, 3) {
-				sel = -1 - int64(r.Intn(4)) // one of the special calls
+				sel = -1 - int64(r.Intn(5)) // one of the special calls
 			}
 			s.Ops = append(s.Ops, engine.Op{Op: "call", N: []int64{int64(t), sel}})
 		}
@@ -273,6 +281,7 @@ func callables(pv reflect.Value, op *engine.Op, valueBytes []byte) (methods []ca
 			return sb.String()
 		}},
 		{"@parse-again", func(reflect.Value, reflect.Value) string { return parseAgain(op, valueBytes) }},
+		{"@hand-to-consumers", func(sh reflect.Value, _ reflect.Value) string { return consumers(sh.Interface()) }},
 		{"@observe-twice", func(sh reflect.Value, _ reflect.Value) string {
 			a := obs.Observe(sh.Interface(), obsOpt)
 			b := obs.Observe(sh.Interface(), obsOpt)
@@ -326,6 +335,74 @@ func synthArgs(mt reflect.Type, variant int) ([]reflect.Value, bool) {
 	return args, true
 }
 
+// consumers hands the shared value to the library functions that take such a
+// value as a PARAMETER and only read it: wrapping constructors, the blinding
+// and encryption entry points, verification with a caller-supplied key. What
+// they return is observed; results that depend on fresh entropy are reduced
+// to success and length.
+func consumers(v any) string {
+	var sb strings.Builder
+	date := time.Unix(4102444800, 0).UTC()
+	secret := refmodel.Expand(77, "conc-secret", 32)
+	blind := func(d destination.Destination) {
+		bd, err := encrypted_leaseset.CreateBlindedDestination(d, secret, date)
+		fmt.Fprintf(&sb, "blind:%v;", err == nil)
+		if err == nil {
+			sb.WriteString(obs.Observe(&bd, obsOpt))
+			if alpha, aerr := kdf.DeriveBlindingFactor(secret, "2100-01-01"); aerr == nil {
+				fmt.Fprintf(&sb, "check:%v;", encrypted_leaseset.VerifyBlindedSignature(bd, d, alpha))
+			}
+		}
+	}
+	switch x := v.(type) {
+	case *certificate.Certificate:
+		kc, err := key_certificate.KeyCertificateFromCertificate(x)
+		fmt.Fprintf(&sb, "keycert:%v;", err == nil)
+		if err == nil {
+			sb.WriteString(obs.Observe(kc, obsOpt))
+		}
+	case *keys_and_cert.KeysAndCert:
+		d, err := destination.NewDestination(x)
+		fmt.Fprintf(&sb, "dest:%v;", err == nil)
+		if err == nil {
+			sb.WriteString(obs.Observe(d, obsOpt))
+		}
+		ri, err := router_identity.NewRouterIdentityFromKeysAndCert(x)
+		fmt.Fprintf(&sb, "rident:%v;", err == nil)
+		if err == nil {
+			sb.WriteString(obs.Observe(ri, obsOpt))
+		}
+	case *destination.Destination:
+		if x != nil && x.KeysAndCert != nil {
+			blind(*x)
+		}
+	case *router_identity.RouterIdentity:
+		if x != nil && x.KeysAndCert != nil {
+			blind(x.AsDestination())
+		}
+	case *lease_set2.LeaseSet2:
+		var cookie [32]byte
+		pub := refmodel.Expand(78, "conc-x25519", 32)
+		ct, err := encrypted_leaseset.EncryptInnerLeaseSet2(x, cookie, pub)
+		fmt.Fprintf(&sb, "encrypt:%v:%d;", err == nil, len(ct))
+		d := x.Destination()
+		if d.KeysAndCert != nil {
+			blind(d)
+		}
+	case *encrypted_leaseset.EncryptedLeaseSet:
+		_, err := x.DecryptInnerData(make([]byte, 32), refmodel.Expand(79, "conc-priv", 32))
+		fmt.Fprintf(&sb, "decrypt-wrong-key:%v;", err == nil)
+	case *offline_signature.OfflineSignature:
+		for _, k := range [][]byte{refmodel.NewSignKey(1, 7).Pub, refmodel.NewSignKey(2, 7).Pub, refmodel.NewSignKey(3, 11).Pub} {
+			ok, err := x.VerifySignature(k)
+			fmt.Fprintf(&sb, "verify:%v:%v;", ok, err == nil)
+		}
+	default:
+		return "n/a"
+	}
+	return sb.String()
+}
+
 func private2(op *engine.Op) reflect.Value {
 	v, _, _, ok := makeValue(op)
 	if !ok {
@@ -344,13 +421,13 @@ type kept struct {
 }
 
 type taskCall struct {
-	kept []kept
+	kept               []kept
 	twinSolo, twinConc reflect.Value
-	c      callable
-	want   string
-	got    string
-	yields int64
-	panic  bool
+	c                  callable
+	want               string
+	got                string
+	yields             int64
+	panic              bool
 }
 
 // Execute runs outside a synctest bubble: in a -race build the testing
